@@ -8,6 +8,13 @@
 //!   c16 record list <file-with-one-spec-per-line> <trace> <inputs>   explicit specs ("u:<idx>" | "c:<dir>|<rel main>")
 //!   c16 worker <jobs.ndjson> <out.ndjson>                            one compilation per job (used for the cross-process runs)
 //!   c16 show <spec>                                                  print the sources and one result
+//!   c16 ctx hist <outdir> <all|required> <targets: all|ids>          histories: one process per HistScenario(t, s) (SyltDetContext)
+//!   c16 ctx long <outdir> <len std> <len no-std> <all|ids>           long histories: one thread compiles LongInput(s, 1..len)
+//!   c16 ctx path <outdir> <all|ids>                                  disk projects x Spellings, one process (cwd, argument) each
+//!   c16 ctx seed <outdir> <nseeds> <count|all|ids:..>                SeedCase(i) compiled nseeds times without std
+//!        each writes <kind>.ndjson (trace), <kind>-groups.ndjson, <kind>-full.ndjson, progs.ndjson into <outdir>
+//!   c16 seqworker <job.json> <out.ndjson> | diskworker <arg> <project dir> <ref digest>     children of `ctx`
+//!   c16 showctx prog|seed|disk <id> | sizes                           print a case of the context universes / all sizes
 //! C16_STUB=salt: negative control, the recorder salts the digest of one run of some inputs (TLC must reject).
 
 use rand::seq::SliceRandom;
@@ -1088,7 +1095,7 @@ const PROG_TABLE: &[(&str, usize, usize, &str, &str, &str, &str, usize, bool, bo
     ("typ-brace-2s", 2, 2, "helper", "-", "type", "brace", 2, false, true),
     ("imp-missing-2", 2, 0, "main", "-", "import", "-", 0, false, false),
     ("n-ok-1", 1, 0, "main", "-", "ok", "-", 0, true, false),
-    ("n-ok-deep-2", 2, 0, "helper", "-", "ok", "mixed", 6, true, false),
+    ("n-ok-deep-2", 2, 0, "helper", "-", "ok", "mixed", 6, true, true),
     ("n-syn-paren-1", 1, 0, "main", "-", "syntax", "paren", 1, true, false),
     ("n-syn-list-3", 1, 0, "main", "-", "syntax", "list", 3, true, false),
     ("n-syn-brace-2", 1, 0, "main", "-", "syntax", "brace", 2, true, false),
@@ -1319,6 +1326,7 @@ const SPELLINGS: &[(&str, &str, &str)] = &[
     ("abs", "/", "$P/main.sy"),
     ("abs-inside", "$P", "$P/main.sy"),
     ("abs-dotdot", "$S", "$P/w/../main.sy"),
+    ("double-slash", "$S", "proj//main.sy"),
 ];
 
 const N_DISK: usize = 64;
@@ -1646,7 +1654,7 @@ fn run_seq(scratch: &Path, tag: &str, progs: &[usize], refs: &BTreeMap<String, S
 // ---- equal-but-not-identical keys --------------------------------------------------------------------------------
 
 const SEED_FAMS: &[&str] =
-    &["dup-blob-field", "dup-enum-variant", "dup-import", "dup-param", "dup-case-arm", "dup-lit-field"];
+    &["dup-blob-field", "dup-enum-variant", "dup-import", "dup-param", "dup-case-arm", "dup-lit-field", "dup-def"];
 
 fn n_seed_cases() -> usize {
     SEED_FAMS.len() * 4 * 2 * 3 * 3 * 2
@@ -1808,6 +1816,19 @@ fn render_seed(c: &SeedCase) -> Project {
             lit.push('}');
             s.l("start :: fn do");
             s.l(&format!("    r := {}", lit));
+            s.l("end");
+        }
+        "dup-def" => {
+            // global definitions: constants (even members) and functions (odd members); a copy with sub = 1 is of the other sort
+            for (q, &j) in c.slots.iter().enumerate() {
+                if vary(j, copies[q]) % 2 == 0 {
+                    s.l(&format!("item{} :: {}", j, j + 10 * copies[q]));
+                } else {
+                    s.l(&format!("item{} :: fn -> int do\n    ret {}\nend", j, j + 10 * copies[q]));
+                }
+            }
+            s.l("start :: fn do");
+            s.l("    q := 1");
             s.l("end");
         }
         _ => tool_error("unknown seed family"),
